@@ -59,6 +59,39 @@ using namespace vfps;
  * -   vfps::Display::printText() for basic information on the logfile.
  */
 
+#if INOVESA_VERIF == 1
+/* Verification hook (guarded, off by default): numbered interrupt points.
+ * INOVESA_VERIF_SIGINT_AT / _AT2 = raise SIGINT when the point counter reaches the value,
+ * INOVESA_VERIF_TRACE = file receiving one line "<counter> <tag>" per point passed. */
+#include <csignal>
+#include <cstdio>
+#include <cstdlib>
+namespace {
+void vfps_verif_ip(const char* tag)
+{
+    static long counter = 0;
+    static const char* at = std::getenv("INOVESA_VERIF_SIGINT_AT");
+    static const char* at2 = std::getenv("INOVESA_VERIF_SIGINT_AT2");
+    static const char* trace = std::getenv("INOVESA_VERIF_TRACE");
+    static FILE* tf = (trace != nullptr) ? std::fopen(trace,"w") : nullptr;
+    if (tf != nullptr) {
+        std::fprintf(tf,"%ld %s\n",counter,tag);
+        std::fflush(tf);
+    }
+    if (at != nullptr && counter == std::atol(at)) {
+        std::raise(SIGINT);
+    }
+    if (at2 != nullptr && counter == std::atol(at2)) {
+        std::raise(SIGINT);
+    }
+    counter++;
+}
+} // namespace
+#define INOVESA_VERIF_IP(tag) vfps_verif_ip(tag)
+#else
+#define INOVESA_VERIF_IP(tag)
+#endif // INOVESA_VERIF
+
 /**
  * @brief main
  * @param argc
@@ -83,6 +116,7 @@ int main(int argc, char** argv)
     //Install signal handler for SIGINT
     signal(SIGINT, Display::SIGINT_handler);
     #endif // INOVESA_ENABLE_INTERRUPT
+    INOVESA_VERIF_IP("setup:handler-installed");
 
     /*
      * Program options might be such that the program does not have
@@ -98,6 +132,7 @@ int main(int argc, char** argv)
         std::cerr << "error: " << e.what() << std::endl;
         return EXIT_FAILURE;
     }
+    INOVESA_VERIF_IP("setup:options-parsed");
 
     #if INOVESA_USE_OPENCL == 1
     auto cldev = opts.getCLDevice();
@@ -453,6 +488,7 @@ int main(int argc, char** argv)
     }
     } // end of context of information printing
 
+    INOVESA_VERIF_IP("setup:parameters");
      /* This first grid (grid_t1) will be initialized and
      * copied for the other ones.
      */
@@ -524,6 +560,7 @@ int main(int argc, char** argv)
         }
     }
 
+    INOVESA_VERIF_IP("setup:grid-created");
     // an initial renormalization might be applied
     if (renormalize >= 0) {
         grid_t1->updateXProjection();
@@ -590,6 +627,7 @@ int main(int argc, char** argv)
     #endif // INOVESSA_USE_GUI
 
 
+    INOVESA_VERIF_IP("setup:grids-copied");
     // RF map
     std::shared_ptr<DynamicRFKickMap> drfm;
     std::shared_ptr<SourceMap> rfm;
@@ -708,6 +746,7 @@ int main(int argc, char** argv)
 
 
 
+    INOVESA_VERIF_IP("setup:maps-built");
     /*
      * Note: There are two used impedances,
      * one for beam dynamics and one for CSR.
@@ -837,6 +876,7 @@ int main(int argc, char** argv)
     }
     #endif // INOVESA_USE_OPENGL
 
+    INOVESA_VERIF_IP("setup:fields-built");
     /*
      * preparation to save results
      */
@@ -880,6 +920,7 @@ int main(int argc, char** argv)
     }
 
 
+    INOVESA_VERIF_IP("setup:file-created");
     Display::printText("Starting the simulation.");
 
     // time between two status updates (in seconds)
@@ -904,6 +945,7 @@ int main(int argc, char** argv)
 
     Display::printText(status_string(grid_t1,0,rotations),false);
 
+    INOVESA_VERIF_IP("setup:first-status");
     #if INOVESA_USE_HDF5 == 1
     const auto h5save = opts.getSavePhaseSpace();
     // end of preparation to save results
@@ -930,6 +972,7 @@ int main(int argc, char** argv)
     }
     #endif // INOVESA_USE_OPENCL
 
+    INOVESA_VERIF_IP("setup:initial-record");
     #if INOVESA_USE_HDF5 == 1 || INOVESA_USE_OPENGL == 1
     // Number of steps when writeout happend
     uint32_t outstepnr=0;
@@ -946,10 +989,12 @@ int main(int argc, char** argv)
      * (everything inside this loop will be run a multitude of times)
      */
     while (simulationstep<laststep && !Display::abort) {
+        INOVESA_VERIF_IP("loop:head");
         if (wkm != nullptr) {
             // works on XProjection
             wkm->update();
         }
+        INOVESA_VERIF_IP("loop:wake-updated");
         if (renormalize > 0 && simulationstep%renormalize == 0) {
             // works on XProjection
             grid_t1->integrateAndNormalize();
@@ -958,6 +1003,7 @@ int main(int argc, char** argv)
             grid_t1->integrate();
         }
 
+        INOVESA_VERIF_IP("loop:integrated");
         if (outstep > 0 && simulationstep%outstep == 0) {
 
             // works on XProjection
@@ -981,15 +1027,20 @@ int main(int argc, char** argv)
                         : HDF5File::AppendType::Defaults;
 
 
+                INOVESA_VERIF_IP("out:moments");
                 hdf_file->append(*grid_t1,
                         static_cast<double>(simulationstep)/steps, at);
+                INOVESA_VERIF_IP("out:ps-appended");
                 rdtn_field.updateCSR(fc);
                 hdf_file->append(&rdtn_field);
+                INOVESA_VERIF_IP("out:csr-appended");
                 if (wkm != nullptr) {
                     hdf_file->append(wkm);
                 }
+                INOVESA_VERIF_IP("out:wake-appended");
                 hdf_file->appendTracks(trackme);
 
+                INOVESA_VERIF_IP("out:tracks-appended");
                 if (drfm) {
                     hdf_file->appendRFKicks(drfm->getPastModulation());
                 }
@@ -1031,15 +1082,20 @@ int main(int argc, char** argv)
             Display::printText(status_string(grid_t1,static_cast<float>(simulationstep)/steps,
                                rotations),false,updatetime);
         }
+        INOVESA_VERIF_IP("loop:output-done");
         wm->apply();
         wm->applyToAll(trackme);
+        INOVESA_VERIF_IP("loop:wake-applied");
         rfm->apply();
         rfm->applyToAll(trackme);
+        INOVESA_VERIF_IP("loop:rf-applied");
         drm->apply();
         drm->applyToAll(trackme);
+        INOVESA_VERIF_IP("loop:drift-applied");
         fpm->apply();
         fpm->applyToAll(trackme);
 
+        INOVESA_VERIF_IP("loop:fp-applied");
         // udate for next time step
         grid_t1->updateXProjection();
 
@@ -1049,8 +1105,10 @@ int main(int argc, char** argv)
         }
         #endif // INOVESA_USE_OPENCL
 
+        INOVESA_VERIF_IP("loop:projected");
         simulationstep++;
     } // end of main simulation loop
+    INOVESA_VERIF_IP("final:loop-left");
 
     #if INOVESA_USE_HDF5 == 1
     // save final result
@@ -1080,10 +1138,12 @@ int main(int argc, char** argv)
             }
         }
         #endif // INOVESA_USE_OPENCL
+        INOVESA_VERIF_IP("final:moments");
         // for theresult, everything will be saved
         hdf_file->append(*grid_t1,
                          static_cast<double>(simulationstep)/steps,
                          HDF5File::AppendType::All);
+        INOVESA_VERIF_IP("final:ps-appended");
         rdtn_field.updateCSR(fc);
         hdf_file->append(&rdtn_field);
         if (wkm != nullptr) {
@@ -1094,6 +1154,7 @@ int main(int argc, char** argv)
         if (drfm) {
             hdf_file->appendRFKicks(drfm->getPastModulation());
         }
+        INOVESA_VERIF_IP("final:rfkicks-appended");
         if (wake_field != nullptr) {
             hdf_file->appendPadded(wake_field);
         }
@@ -1105,6 +1166,7 @@ int main(int argc, char** argv)
     }
     #endif
 
+    INOVESA_VERIF_IP("final:record-written");
     // Print the last status.
     Display::printText(status_string(
                            grid_t1, static_cast<float>(
@@ -1115,6 +1177,7 @@ int main(int argc, char** argv)
     delete wm;
     delete fpm;
 
+    INOVESA_VERIF_IP("final:cleanup");
     // Print Aborted instead of Finished if it was aborted. Also for log file.
     if(Display::abort) {
         Display::printText("Aborted.");
